@@ -385,7 +385,7 @@ def rule_graph_sync(ctx):
         else:
             bad.append(('unrecognised exit value %s' % st.ret, bb, P))
     R.ob('G1-typestate', ae.path, not bad and bool(exits), 'on every exit of add_edge the three encodings agree; Err and Ok(false) leave them as at entry and write no rank; Ok(true) only for a new edge (%d abstract exits)' % len(exits)
-         if not bad and exits else '; '.join(sorted({b[0] for b in bad}))[:900], ctx.where(ae), props=('C10', 'C11', 'C08'))
+         if not bad and exits else '; '.join(sorted({b[0] for b in bad}))[:900], ctx.where(ae), props=('C10', 'C11', 'C08', 'C07', 'C19'))
     R.ob('G1-exits', ae.path, {'Err', 'Ok(0)', 'Ok(1)'} <= kinds, 'add_edge has Err, Ok(false) and Ok(true) exits' if {'Err', 'Ok(0)', 'Ok(1)'} <= kinds else 'exit kinds seen: %s' % sorted(map(str, kinds)),
          ctx.where(ae), props=P)
     # E3: edge data inserted only on the new-edge path, with the data parameter
